@@ -85,6 +85,9 @@ pub struct Machine {
     pub pc_marks: Vec<u16>,
     /// opcodes whose execution is logged as an Exec event with val = opcode (register transfers for C18)
     pub watch_ops: Vec<u8>,
+    /// addresses whose executions are counted (sorted), and the counts (same order)
+    pub pc_count_set: Vec<u16>,
+    pub pc_counts: Vec<u64>,
     cur_pc: u16,
     decode: Vec<Option<(&'static str, Mode, u8, bool)>>,
 }
@@ -132,6 +135,8 @@ impl Machine {
             wide_rel: false,
             pc_marks: vec![],
             watch_ops: vec![],
+            pc_count_set: vec![],
+            pc_counts: vec![],
             cur_pc: 0,
             decode,
         }
@@ -295,6 +300,14 @@ impl Machine {
         if !self.pc_marks.is_empty() && self.pc_marks.binary_search(&self.pc).is_ok() {
             let pc = self.pc;
             self.log(AccKind::Exec, pc, 0);
+        }
+        if !self.pc_count_set.is_empty() {
+            if let Ok(i) = self.pc_count_set.binary_search(&self.pc) {
+                if self.pc_counts.len() != self.pc_count_set.len() {
+                    self.pc_counts = vec![0; self.pc_count_set.len()];
+                }
+                self.pc_counts[i] += 1;
+            }
         }
         let opc = self.fetch();
         if !self.watch_ops.is_empty() && self.watch_ops.contains(&opc) {
